@@ -90,7 +90,7 @@ def walk_no_nested(node) -> Iterator[ast.AST]:
             continue
         first = False
         yield n
-        stack.extend(ast.iter_child_nodes(n))
+        stack.extend(reversed(list(ast.iter_child_nodes(n))))  # pre-order, in source order
 
 
 def strip_docstring(body: Sequence[ast.stmt]) -> List[ast.stmt]:
